@@ -207,6 +207,9 @@ def generate(rng, tier):
             ops.append({"op": "synced", "comp": rng.choice(synced_cands)})
         elif r < 0.74:
             ops.append({"op": "get_palette", "comp": rng.choice(synced_cands) if synced_cands and rng.random() < 0.4 else None})
+        elif r < 0.79:
+            # a report is only a view: asking for one (also of the global configuration) changes nothing
+            ops.append({"op": "report", "of": rng.choice(["M", "M", "G"])})
         ops.append(d)
         if rng.random() < 0.15:
             # the same component again: registration must be idempotent
@@ -689,6 +692,12 @@ def execute(trace, rng):
                     w.synced.append((name, pal))
                     w.stats["synced_created"] += 1
                 w.deliver_comp(regG, name, g_registered)
+            elif k == "report":
+                conf = M if op.get("of") == "M" or glabel == "tainted" else G
+                text = w.sut("make_report", conf.make_report)
+                if not isinstance(text, str):
+                    raise Violation("report", "not-a-text", repr(type(text)))
+                w.stats["reports_midway"] = w.stats.get("reports_midway", 0) + 1
             elif k == "get_palette":
                 w.hold(M, regM, op.get("comp") if op.get("comp") in w.used else None)
             else:
